@@ -7,7 +7,7 @@ import traceback
 import z3
 
 from . import frontend, spec
-from .engine import (Arr, Ctx, Exec, NORMAL, Obl, Outcome, RAISE, RETURN, State, Tup, Unsupported, fresh, zbool, zint,
+from .engine import (sel, Arr, Ctx, Exec, NORMAL, Obl, Outcome, RAISE, RETURN, State, Tup, Unsupported, fresh, zbool, zint,
                      DTYPE_ALIASES, INT_RANGE)
 from .frontend import BindingFailure
 
@@ -71,8 +71,8 @@ def entry_state(ex, c, fs):
             if t["dtype"] in INT_RANGE and c.options.get("int_ranges", True) and t["dtype"] != "i8":
                 lo, hi = INT_RANGE[t["dtype"]]
                 ks = [z3.Int(f"k!r{i}") for i in range(len(shape))]
-                sel = z3.Select(st.heap[a.oid], *ks) if len(ks) > 1 else st.heap[a.oid][ks[0]]
-                st.assume(z3.ForAll(ks, z3.And(sel >= lo, sel <= hi), patterns=[sel]))
+                rsel = sel(st.heap[a.oid], *ks)
+                st.assume(z3.ForAll(ks, z3.And(rsel >= lo, rsel <= hi), patterns=[rsel]))
         elif t["kind"] == "scalar":
             st.env[p] = z3.Const(p, ctx.elem_sort(t["dtype"]))
         else:
@@ -134,8 +134,8 @@ def verify_function(c, extra_options=None):
                     w = cur.written[a0.oid]
                     ks = [fresh("k", z3.IntSort()) for _ in range(a0.ndim)]
                     rng = z3.And(*[z3.And(k >= 0, k < zint(n)) for k, n in zip(ks, a0.shape)])
-                    sel = z3.Select(w, *ks) if len(ks) > 1 else w[ks[0]]
-                    ex.emit(cur, "written", p, z3.ForAll(ks, z3.Implies(rng, sel)), fs.path)
+                    wsel = sel(w, *ks)
+                    ex.emit(cur, "written", p, z3.ForAll(ks, z3.Implies(rng, wsel)), fs.path)
                 # frame: arrays passed in and not in modifies keep their contents
                 if c.options.get("frame_obligations", True):
                     for p, ty in c.params.items():
@@ -197,3 +197,34 @@ def prove_lemma(lem):
     for o in obls:
         o.axioms = list(ctx.axioms)
     return obls
+
+
+class _Alt:
+    def __init__(self, hyps, goal, axioms):
+        self.hyps, self.goal, self.axioms = hyps, goal, axioms
+
+
+def verify_portfolio(c, extra_options=None, modes=("naive", "fuel", "recfun")):
+    """VCs of one contract under several sound encodings of the recursive spec functions.
+
+    The primary obligations come from the first mode; the same obligation (same id) generated under
+    the other encodings, plus a variant without spec-function axioms, are attached as alternatives."""
+    opts = dict(extra_options or {})
+    opts["specfn_encoding"] = modes[0]
+    res = verify_function(c, opts)
+    if res.ctx is None or res.error:
+        return res
+    for o in res.ctx.obls:
+        o.axioms = list(res.ctx.axioms)
+        o.alternatives = [("noax", _Alt(o.hyps, o.goal, list(res.ctx.fm.axioms)))] if o.expect != "sat" else []
+    byid = {o.id: o for o in res.ctx.obls}
+    for m in modes[1:]:
+        o2 = dict(extra_options or {})
+        o2["specfn_encoding"] = m
+        r2 = verify_function(c, o2)
+        if r2.ctx is None or r2.error:
+            continue
+        for o in r2.ctx.obls:
+            if o.id in byid and o.expect != "sat":
+                byid[o.id].alternatives.append((m, _Alt(o.hyps, o.goal, list(r2.ctx.axioms))))
+    return res
